@@ -131,7 +131,7 @@ PROPS = {
         "assumptions": ["SQLite commits atomically and durably with respect to process kill (WAL mode)", "every mutating call is one transaction (checked by the kill points, not proved)", "the child's scripted clock and the recorded wall-clock second of each step stand for time in the model"],
     },
     "C11": _kv("C11", "Proved on the model's store for every reachable store and every entry point: a call addressed to collection c leaves documents, backfill, identity and feeds of every other collection unchanged (C11_frame); DropDataStore removes exactly the collection's rows and entry (C11_drop); re-creation yields a fresh id with no documents (C11_recreate). Views and SQL queries of other collections are covered under C12/C19 models. The executable trace checker (rows, dump order and collection list outside the addressed collection unchanged; a drop removes exactly the collection; a creation yields an empty one; events carry the addressed collection's id) is proved to accept every history of the model (C11_checker_accepts_every_model_history, KvTrace.v) and is run on the implementation's traces. Feeds and their checkpoint documents: the sched family runs half of its schedules on a named collection with the default collection as a bystander (checkpoints are read back from, and their events expected on, the fed collection).", model_chk=True, extra=[{"family": "sched", "chk": "sched_excused_C09"}]),
-    "C18": _kv("C18", "Proved on Json.v for all documents, paths and values: a sub-document write leaves every property on a diverging path unchanged (C18_frame), the addressed property reads back as the written value (C18_set) or as absent after removal (C18_remove); CAS honoured / failure changes nothing is the C02 theorem (C18_cas). The trace checker restates WriteSubDoc/SubdocInsert/GetSubDocRaw as upsert_path/eval_path over the parsed read-back and is evaluated on implementation and model traces (acceptance of model traces checked by evaluation). The concurrent no-lost-update half is part of the interleaving model: partial.", model_chk=True),
+    "C18": _kv("C18", "Proved on Json.v for all documents, paths and values: a sub-document write leaves every property on a diverging path unchanged (C18_frame), the addressed property reads back as the written value (C18_set) or as absent after removal (C18_remove); CAS honoured / failure changes nothing is the C02 theorem (C18_cas). The trace checker restates WriteSubDoc/SubdocInsert/GetSubDocRaw as upsert_path/eval_path over the parsed read-back and is evaluated on implementation traces; it also says that a write given no CAS never answers with a CAS mismatch (it retries a lost race), and it is proved to accept every history of the model (C18_checker_accepts_every_model_history, KvC18.v: exhaustive case analysis of Kv.kstep, with the path lemmas eval_path_app / subdoc_insert_absent). Calls landing inside the read-to-write window of a sub-document write (also on a key that has no row yet and is created inside the window) are run through the hook point subdoc.window and compared with the model's sequential order; the general concurrent no-lost-update statement is part of the interleaving model: partial.", model_chk=True),
     "C13": {
         "families": [{"family": "reg", "model_chk": True, "model_chk_fn": "kv_model_chk_reg"}, {"family": "life"}],
         "level_text": "Proved on the registry model (Registry.v: cluster.buckets, cluster.bucketCount, store instances, handles, OpenBucket modes, Close, CloseAndDelete) for all histories over any handles, names and URLs: the reference count of a registered bucket equals the number of handles opened on it and not closed (C13_refcount, invariant rinv for every reachable state), and closing a handle - even twice - changes neither the status nor the data seen through any other handle (C13_close_is_local). Open-mode outcomes, data survival across reopen, removal by CloseAndDelete and the bucket-closed error are decided by the executable checker on implementation traces and by exact correspondence with the model; that the checker accepts every model trace is checked by evaluation. Concurrent opens/closes are not modelled: partial. An OpenBucket that runs inside a Close, between its unregisterBucket and the marking of the handle (hook point close.unregistered), is the model step RCloseOpen = Close then Open: the reg family runs such races in one case out of three closes and compares the outcome exactly.",
